@@ -132,7 +132,7 @@ def run(tier):
     for r in recs[:: max(1, len(recs) // 5)]:
         rep.sample(r)
     wd = core.scratch("c12")
-    bad, jr = core.judge("Judge_Limiters", recs, wd)
+    bad, jr = core.judge("Judge_Limiters", recs, wd, unjudgeable="C12_unjudgeable")
     rep.add_tlc("Judge_Limiters", jr, counts_as_model=False)
     rep.traces = len(recs)
     byid = {r["id"]: r for r in recs}
